@@ -14,7 +14,7 @@ Ltac ifs := repeat match goal with
 (* the steps of a round: everything but the application's actions, dial registration and close *)
 Definition env_step (a : action) : Prop :=
   match a with
-  | Register | PeerRead _ | Deliver _ _ | HandleOut | ConnDone | Rearm => True
+  | Register | PeerRead _ | Deliver _ _ | HandleOut | ConnDone | ReadDispatch _ | Rearm => True
   | _ => False
   end.
 
@@ -36,8 +36,8 @@ Proof.
   - (* HandleOut *)
     cbn [step]. destruct (pw s) eqn:Ep; try (repeat split; auto; fail).
     destruct (closed s) eqn:Ec.
-    + cbn [negb andb]. rewrite flush_closed by (unfold release, set_pw, set_owed; destruct (is_os md); simp_proj; auto).
-      unfold release, set_pw, set_owed; destruct (is_os md); simp_proj; repeat split; auto; intros; congruence.
+    + cbn [negb andb]. rewrite flush_closed by (rewrite release_closed; auto).
+      unfold release, set_pw, set_owed; destruct (is_os md && negb (prd s)); simp_proj; repeat split; auto; intros; congruence.
     + cbn [negb andb]. destruct (dial s) eqn:Ed.
       * unfold set_pw, set_dial; simp_proj; repeat split; auto.
       * destruct (release_qs md s) as (A & B & C & D).
@@ -45,18 +45,20 @@ Proof.
         assert (Z : closed (flush md (release md s)) = false /\ dial (flush md (release md s)) = false /\
                     reg (flush md (release md s)) = reg s).
         { destruct (flush_frame md (release md s)) as (F1 & F2 & F3 & _). rewrite F1, F2, F3.
-          unfold release, set_pw, set_owed. destruct (is_os md); simp_proj; auto. }
+          unfold release, set_pw, set_owed. destruct (is_os md && negb (prd s)); simp_proj; auto. }
         destruct Z as (Z1 & Z2 & Z3). rewrite Z1, Z2, Z3, X, Y, A, B, C. repeat split; auto; intros; lia.
   - (* ConnDone *)
     cbn [step]. destruct (pw s) eqn:Ep; try (repeat split; auto; fail).
     assert (R : closed (release md s) = closed s /\ dial (release md s) = dial s /\ reg (release md s) = reg s)
-      by (unfold release, set_pw, set_owed; destruct (is_os md); simp_proj; auto).
+      by (unfold release, set_pw, set_owed; destruct (is_os md && negb (prd s)); simp_proj; auto).
     destruct R as (R1 & R2 & R3). destruct (release_qs md s) as (A & B & C & D).
     match goal with |- context[if ?b then _ else _] => destruct b end.
     + destruct (resetRead_frame md (release md s)) as (F1 & F2 & F3 & _).
       destruct (resetRead_qs md (release md s)) as (Q1 & Q2 & _).
       rewrite F1, F2, F3, Q1, Q2, R1, R2, R3, A, B. repeat split; auto.
     + rewrite R1, R2, R3, A, B. repeat split; auto.
+  - (* ReadDispatch *)
+    cbn [step]. unfold set_prd, set_owed. ifs; simp_proj; repeat split; auto.
   - (* Rearm *)
     cbn [step]. unfold rearm, kctl, set_owed, set_wadded. destruct md; ifs; simp_proj; repeat split; auto.
 Qed.
@@ -100,11 +102,11 @@ Proof.
 Qed.
 
 Lemma rearms_frame md n : forall s,
-  pw (rearms md n s) = pw s /\ reg (rearms md n s) = reg s /\ owed (rearms md n s) = owed s - n.
+  pw (rearms md n s) = pw s /\ reg (rearms md n s) = reg s /\ owed (rearms md n s) = owed s - n /\ prd (rearms md n s) = prd s.
 Proof.
   induction n as [|n IH]; intros s; cbn [rearms].
   - repeat split; lia.
-  - destruct (IH (rearm md s)) as (A & B & C). rewrite A, B, C.
+  - destruct (IH (rearm md s)) as (A & B & C & D). rewrite A, B, C, D.
     unfold rearm, kctl, set_owed, set_wadded. destruct md; ifs; simp_proj; repeat split; auto; lia.
 Qed.
 
@@ -124,17 +126,24 @@ Proof.
   { unfold s2. cbn [step]. destruct (pw s1) eqn:Ep; try congruence.
     rewrite (g_closed _ _ _ G1), (g_dial _ _ _ G1). cbn [negb andb].
     destruct (flush_frame md (release md s1)) as (_ & _ & _ & F4 & _). rewrite F4.
-    unfold release, set_pw, set_owed. destruct (is_os md); simp_proj; discriminate. }
+    unfold release, set_pw, set_owed. destruct (is_os md && negb (prd s1)); simp_proj; discriminate. }
   set (s3 := step md s2 ConnDone).
   assert (G3 : good md s s3) by (apply good_step; cbn; auto).
   assert (R3 : reg s3 = true) by (apply (env_frame md s2 ConnDone I); auto).
   assert (P3 : pw s3 = WNone).
   { unfold s3. cbn [step]. destruct (pw s2) eqn:Ep; try congruence.
-    assert (R : pw (release md s2) = WNone) by (unfold release, set_pw, set_owed; destruct (is_os md); simp_proj; auto).
+    assert (R : pw (release md s2) = WNone) by (unfold release, set_pw, set_owed; destruct (is_os md && negb (prd s2)); simp_proj; auto).
     match goal with |- context[if ?b then _ else _] => destruct b end; auto.
     destruct (resetRead_frame md (release md s2)) as (_ & _ & _ & F4 & _). congruence. }
-  destruct (rearms_frame md (owed s3) s3) as (A & B & C).
-  split; [apply good_rearms; exact G3|]. split; [congruence|]. split; [congruence|lia].
+  set (s4 := step md s3 (ReadDispatch false)).
+  assert (G4 : good md s s4) by (apply good_step; cbn; auto).
+  assert (R4 : reg s4 = true) by (apply (env_frame md s3 (ReadDispatch false) I); auto).
+  assert (P4 : pw s4 = WNone /\ prd s4 = false).
+  { unfold s4. cbn [step]. rewrite P3. unfold set_prd, set_owed. destruct (prd s3) eqn:Ep; [|auto].
+    match goal with |- context[if ?b then _ else _] => destruct b end; simp_proj; auto. }
+  destruct P4 as [P4 Q4].
+  destruct (rearms_frame md (owed s4) s4) as (A & B & C & D).
+  split; [apply good_rearms; exact G4|]. split; [congruence|]. split; [congruence|]. split; [lia|congruence].
 Qed.
 
 Lemma handle_out_good md s0 s : good md s0 s -> good md s0 (handle_out md s).
@@ -154,15 +163,15 @@ Proof.
   assert (Hqf : q f <= q s) by (destruct GF; lia).
   set (p := step md f (PeerRead (S k))).
   assert (GP : good md s p) by (apply good_step; cbn; auto).
-  assert (Ep : q p = q f /\ room p = room f + S k /\ pw p = pw f /\ owed p = owed f /\ reg p = reg f).
-  { unfold p. cbn [step]. rewrite (g_closed _ _ _ GF). cbn [orb Nat.eqb]. unfold kpeer. simp_proj. auto. }
-  destruct Ep as (E1 & E2 & E3 & E4 & E5).
+  assert (Ep : q p = q f /\ room p = room f + S k /\ pw p = pw f /\ owed p = owed f /\ reg p = reg f /\ prd p = prd f).
+  { unfold p. cbn [step]. rewrite (g_closed _ _ _ GF). cbn [orb Nat.eqb]. unfold kpeer. simp_proj. repeat split; auto. }
+  destruct Ep as (E1 & E2 & E3 & E4 & E5 & E6).
   assert (GH : good md s (handle_out md p)) by (apply handle_out_good; auto).
   change (round md s k) with (handle_out md p).
   destruct (Nat.eq_dec (q f) 0) as [Z|NZ].
   - assert (GH' : good md p (handle_out md p)) by (apply handle_out_good; eapply good_self; eauto).
     destruct GH'. lia.
-  - assert (QP : quiescent p) by (destruct QF; split; congruence).
+  - assert (QP : quiescent p) by (destruct QF as (? & ? & ?); repeat split; congruence).
     assert (D : deliverable_out md p false = true).
     { apply no_lost_wakeup; auto; try (destruct GP; auto; fail); try congruence; lia. }
     destruct (progress md p (g_closed _ _ _ GP) (g_dial _ _ _ GP) QP D) as [L _]; lia.
